@@ -1,4 +1,5 @@
 """C14 — submitted configurations are frozen together with their identity."""
-FUNCS = ["ConfigInformation.set", "ConfigInformation.set_meta", "TypeConfig.add_pretasks"]
+FUNCS = ["ConfigInformation.set", "ConfigInformation.set_meta", "TypeConfig.add_pretasks",
+         "ConfigInformation.seal.Sealer.preprocess", "ConfigInformation.seal.Sealer.postprocess", "HashComputer.compute"]
 LEVEL = "proof"
 TRUSTED = []
